@@ -118,7 +118,7 @@ static int run_child(const scn_t *s, long i, long *count, int *sig, uint64_t see
 }
 
 int fam_fault(const vh_args_t *a) {
-  big = a->tier;
+  big = 1; /* shapes that reach the recursive regimes (small-cache build) in both tiers: a run costs milliseconds */
   vh_nofork = 1;
   long idx = 0;
   for (const scn_t *s = SCN; s->name; s++, idx++) {
